@@ -69,19 +69,6 @@ Definition is_bad (t : tag) : bool := match t with TBad => true | _ => false end
 (* first and last element are the loop's own prefix / suffix *)
 Definition middle {A} (l : list A) : list A := removelast (tl l).
 
-(* model states before each item *)
-Fixpoint states (own : pv) (async : bool) (s : mgr) (its : list item) : list mgr :=
-  match its with
-  | [] => []
-  | it :: rest => s :: states own async (fst (step own async s it)) rest
-  end.
-
-Fixpoint zip3 {A B C} (a : list A) (b : list B) (c : list C) : list (A * B * C) :=
-  match a, b, c with
-  | x :: a', y :: b', z :: c' => (x, y, z) :: zip3 a' b' c'
-  | _, _, _ => []
-  end.
-
 (* ---- the property evaluated on an observation ---- *)
 Definition sentinel_seen (eio ev : pv) (withcb : bool) (seg : list eff) : bool :=
   existsb (fun e => match e with
@@ -136,15 +123,22 @@ Definition chk_inert (items : list (tag * item)) (segsA segsB : list (list eff))
            (map (filter observable) segsB) &&
   mgr_eqb finA finB.
 
-Definition tags_justified (own : pv) (async : bool) (init : mgr) (items : list (tag * item)) : bool :=
-  forallb (fun p => if is_bad (fst (fst p))
-                    then match classify own (snd p) (snd (fst p)) with Some _ => true | None => false end
-                    else true)
-          (combine items (states own async init (map snd items))).
-Definition has_counter_class (own : pv) (async : bool) (init : mgr) (items : list (tag * item)) : bool :=
-  existsb (fun p => is_bad (fst (fst p)) &&
-                    match classify own (snd p) (snd (fst p)) with Some BCallbackCounter => true | _ => false end)
-          (combine items (states own async init (map snd items))).
+(* the generator's TBad tags are checked against the specification's classes, in the model's
+   state at that point of the channel *)
+Fixpoint tags_justified (own : pv) (async : bool) (s : mgr) (items : list (tag * item)) : bool :=
+  match items with
+  | [] => true
+  | (t, it) :: rest =>
+      (if is_bad t then match classify own s it with Some _ => true | None => false end else true) &&
+      tags_justified own async (fst (step own async s it)) rest
+  end.
+Fixpoint has_counter_class (own : pv) (async : bool) (s : mgr) (items : list (tag * item)) : bool :=
+  match items with
+  | [] => false
+  | (t, it) :: rest =>
+      (is_bad t && match classify own s it with Some BCallbackCounter => true | _ => false end) ||
+      has_counter_class own async (fst (step own async s it)) rest
+  end.
 
 Definition lst_corr (async : bool) (own : pv) (init : mgr) (its : list item)
            (obs : list (list eff)) (fin : mgr) : bool :=
@@ -180,10 +174,32 @@ Definition c15_eval (c : c15case) : nat :=
   | ApiMsg model observed => bits (pv_eqb model observed) true
   | RL channel script obs =>
       bits (list_eqb revent_eqb (listen_run channel script) obs)
-           (if redis_only script then backoff_ok 1%Z obs && ends_with_end obs else true)
+           (if redis_only channel script then
+              match script with
+              | LRedisError :: _ => true      (* the first subscribe is outside the retry loop: _thread restarts _listen *)
+              | _ => backoff_ok 1%Z obs && ends_with_end obs
+              end
+            else true)
   | RP script obs =>
       bits (list_eqb pevent_eqb (pub_run script) obs)
-           (if redis_only script then pub_no_raise obs && Nat.leb (count_publish obs) 1 else true)
+           (if no_other script then pub_no_raise obs && Nat.leb (count_publish obs) 1 else true)
+  end.
+
+(* shown by --replay: the clauses one by one
+   [model=run A; model=run B; one segment per item; sentinels delivered; foreign acks and own echoes
+    ignored; tagged messages ineffective; tags justified; no counter-class message] *)
+Definition c15_clauses (c : c15case) : list bool :=
+  match c with
+  | Lst async own init items obsA finA obsB finB =>
+      let o := PStr own in
+      let its := map snd items in
+      let itsB := map snd (filter (fun p => negb (is_bad (fst p))) items) in
+      [lst_corr async o init its obsA finA; lst_corr async o init itsB obsB finB;
+       Nat.eqb (List.length (middle obsA)) (List.length items);
+       chk_sentinels items (middle obsA); chk_ignored o items (middle obsA);
+       chk_inert items (middle obsA) (middle obsB) finA finB;
+       tags_justified o async init items; negb (has_counter_class o async init items)]
+  | _ => []
   end.
 
 (* shown by --replay: what the model computes for the case *)
